@@ -125,7 +125,7 @@ def _case(draw, cfg):
     return spec
 
 
-CFG_CONV = CFG_F.copy(min_tasks=3, max_tasks=7, max_comps=3, max_wps=4, p_auto=0, servable=0, kinds=[0, 0, 0, 1])
+CFG_CONV = CFG_F.copy(default_names=2, min_tasks=3, max_tasks=7, max_comps=3, max_wps=4, p_auto=0, servable=0, kinds=[0, 0, 0, 1])
 
 
 @st.composite
@@ -154,7 +154,7 @@ def _conveyor(draw, cfg):
         t["fixf"] = None
         k = pos.get(t["comp"], draw(st.integers(0, 1)))
         w = min(k, nw - 1)
-        pos[t["comp"]] = k + 1
+        pos[t["comp"]] = k + draw(st.sampled_from([1, 1, 1, 2]))  # (2: the next task is served one workplace further down: no entry)
         spec["wps"][w]["targets"].append(ti)
         for f in spec["facs"]:
             if f["wp"] == w:
@@ -213,6 +213,8 @@ def _siblings(draw):
         "opts": {"rule": draw(st.sampled_from(list(range(9)))), "abs": draw(st.lists(st.integers(0, 10), unique=True, max_size=2)),
                  "auto_abs": False, "max_time": 40},
     }
+    if draw(st.booleans()):
+        spec["default_names"] = True  # all workplaces are called "New Workplace": the conveyor links are between objects
     return spec
 
 
